@@ -118,6 +118,8 @@ pub struct Stats {
     pub samples: Vec<Value>,
     pub excluded_known: BTreeMap<String, u64>,
     pub notes: BTreeMap<String, Value>,
+    /// Named coverage sets (merged by union), e.g. the free-space values met.
+    pub sets: BTreeMap<String, std::collections::BTreeSet<u64>>,
     /// Set when a failure was seen: proptest re-runs the closure while shrinking and those runs
     /// must not be counted.
     pub frozen: bool,
@@ -156,6 +158,11 @@ impl Stats {
             self.nontrivial.insert(hash_of(t));
         }
     }
+    pub fn cover(&mut self, set: &str, v: u64) {
+        if !self.frozen {
+            self.sets.entry(set.to_string()).or_default().insert(v);
+        }
+    }
     pub fn excluded(&mut self, sig: &str) {
         if !self.frozen {
             *self.excluded_known.entry(sig.to_string()).or_insert(0) += 1;
@@ -183,6 +190,9 @@ impl Stats {
         }
         for (k, v) in other.notes {
             self.notes.entry(k).or_insert(v);
+        }
+        for (k, v) in other.sets {
+            self.sets.entry(k).or_default().extend(v);
         }
     }
 }
@@ -329,6 +339,9 @@ impl Report {
         for (k, v) in &stats.notes {
             coverage.insert(k.clone(), v.clone());
         }
+        for (k, v) in &stats.sets {
+            coverage.insert(format!("covered_{k}"), json!(v.len()));
+        }
         for (k, v) in self.extra {
             coverage.insert(k, v);
         }
@@ -366,6 +379,9 @@ impl Report {
         }
         for (k, v) in &stats.excluded_known {
             println!("  excluded_known {k}: {v}");
+        }
+        for (k, v) in &stats.sets {
+            println!("  covered {k}: {} distinct values", v.len());
         }
         if replay_paths.is_empty() {
             println!("OK property={}", ctx.prop);
